@@ -106,6 +106,43 @@ def check(run):
                     run.violation("Rz", "Rz", inp0, "-s f", "differs")
             except Exception as e:
                 run.violation("operator-raised", "commutators", inp0, "Modes", repr(e))
+    # memory layouts: an operator applied to a Modes object wrapping a non-C-ordered multi-dimensional view acts row by row
+    OPS = [("Lz", lambda m: m.Lz()), ("Lplus", lambda m: m.Lplus()), ("Lminus", lambda m: m.Lminus()), ("Lsquared", lambda m: m.Lsquared()),
+           ("Rz", lambda m: m.Rz()), ("Rplus", lambda m: m.Rplus()), ("Rminus", lambda m: m.Rminus()), ("Rsquared", lambda m: m.Rsquared()),
+           ("eth", lambda m: m.eth), ("ethbar", lambda m: m.ethbar)]
+    for s in ([-2, 0, 1] if quick else range(-3, 4)):
+        L = abs(s) + 2
+        n = (L + 1) ** 2
+        for layout in ("moveaxis", "fortran", "strided"):
+            raw = np.array([complex(rng.gauss(0, 1), rng.gauss(0, 1)) for _ in range(2 * 3 * n * 2)])
+            if layout == "moveaxis":
+                data = np.moveaxis(raw[:2 * 3 * n].reshape(2, n, 3), 1, -1)
+            elif layout == "fortran":
+                data = np.asfortranarray(raw[:2 * 3 * n].reshape(2, 3, n))
+            else:
+                data = raw.reshape(2, 6, n)[:, ::2, :]
+            data[..., :s * s] = 0
+            inp = {"s": s, "ell_max": L, "lead": [2, 3], "layout": layout}
+            try:
+                f = spherical.Modes(data, spin_weight=s, ell_min=0, ell_max=L)
+            except Exception as e:
+                run.violation("operator-raised", "Modes.__new__", inp, "Modes", repr(e))
+                continue
+            for nm, op in OPS:
+                run.gap_case("operator-layout", (s, layout, nm), f"layout|{layout}")
+                try:
+                    got = op(f)
+                    got = got.ndarray if hasattr(got, "ndarray") else np.asarray(got)
+                    for idx in np.ndindex(2, 3):
+                        row = spherical.Modes(np.array(data[idx], copy=True), spin_weight=s, ell_min=0, ell_max=L)
+                        ref = op(row)
+                        ref = ref.ndarray if hasattr(ref, "ndarray") else np.asarray(ref)
+                        if got[idx].shape != ref.shape or not helpers.bits_equal(got[idx], ref):
+                            run.violation("operator-depends-on-memory-layout", nm, {**inp, "row": list(idx), "data_row": [[float(v.real), float(v.imag)] for v in data[idx]]},
+                                          "the operator applied to that row alone", "differs")
+                            break
+                except Exception as e:
+                    run.violation("operator-raised", nm, inp, "Modes", repr(e))
     # array-level operators for all (spin, ell_min <= ell_max)
     LM = 8 if quick else 12
     for s in range(-3, 4):
